@@ -299,6 +299,8 @@ def c13(tier):
         if t == "CoseKdfContext":
             p.update(max_map=0, max_total_entries=0)
         jobs.append(("jobs_misc", "api_job", dict(prop="C13", tname=t, policy=p)))
+    jobs.append(("jobs_misc", "api_job", dict(prop="C13", tname="ProtectedHeader", policy=dict(pol, max_array=4, max_total_items=9),
+                                              via_bstr=True)))
     jobs += _heads("C13", tier)
     return jobs
 
